@@ -103,6 +103,12 @@ class PanicScan:
                 if t.k == "assert":
                     n_asserts += 1
                     construct = "assert:" + t.msg
+                    # arithmetic on two compile-time constants (`PREFIX_LEN + 1`): the overflow check is evaluated by the compiler; an
+                    # overflowing constant expression is a compile error (deny-by-default lint), so the assert cannot fire at run time
+                    if "Overflow" in (t.msg or "") and t.cond.place is not None:
+                        src = [st for st in blk.stmts if st.k == "assign" and st.place.is_local() and st.place.local == t.cond.place.local and st.rv["k"] == "bin"]
+                        if src and src[-1].rv["l"].kind == "const" and src[-1].rv["r"].kind == "const":
+                            continue
                 elif t.k == "call":
                     n_calls += 1
                     c = t.callee
